@@ -28,7 +28,13 @@ for pid in ids:
     earlier = []
     for name in sorted(os.listdir(os.path.join(VERIF, "seeded"))):
         if name.startswith(pid):
-            m = json.load(open(os.path.join(VERIF, "seeded", name, "meta.json")))
+            for _ in range(5):
+                try:
+                    m = json.load(open(os.path.join(VERIF, "seeded", name, "meta.json")))
+                    break
+                except ValueError:      # being rewritten by a recheck at this moment
+                    import time
+                    time.sleep(0.5)
             if m.get("summary"):
                 earlier.append("- " + m["summary"].strip())
     with open(os.path.join(wt, "PROPERTY.txt"), "w") as f:
